@@ -277,6 +277,23 @@ def restart_replay_guard(F, rule):
 		out.append(Result(rule, okc, ('ok:' if okc else 'replay:') + 'confirmed-htlc-list/' + fld,
 			'get_onchain_failed_outbound_htlcs: when the confirmed commitment is funding.%s its HTLC list is %slooked up in counterparty_claimable_outpoints (a confirmed unrevoked counterparty commitment - current or previous - must be compared with its own HTLCs, not with the empty list)' % (fld, '' if okc else 'NOT always '),
 			len(eqs) + len(lookups), where=None if okc else F.where(gfn)))
+	# candidates: the HTLCs of BOTH unrevoked counterparty commitments are walked (an HTLC present only in the previous one - removed by a
+	# commitment whose revoke_and_ack never arrived - would otherwise never be re-failed after a restart): after the lookup keyed by the
+	# current commitment txid, the lookup keyed by the previous one is still reachable
+	for cu in fam:
+		cex = Expr(cu)
+		cur, prv = [], []
+		for b, ci in cu.calls():
+			if norm(ci.get('f') or '').endswith('::get') and len(ci['args']) > 1 and 'counterparty_claimable_outpoints' in expr_str(cex.of_operand(ci['args'][0])):
+				k = expr_str(cex.of_operand(ci['args'][1]))
+				if 'current_counterparty_commitment_txid' in k:
+					cur.append(b)
+				elif 'prev_counterparty_commitment_txid' in k:
+					prv.append(b)
+		if not cur and not prv:
+			continue
+		okw = bool(cur) and bool(prv) and all(cu.path([b], prv) is not None for b in cur)
+		out.append(Result(rule, okw, ('ok:' if okw else 'replay:') + 'both-unrevoked-commitments-walked', 'get_onchain_failed_outbound_htlcs walks the HTLCs of the current counterparty commitment (%d lookup(s)) and then also those of the previous unrevoked one (%d lookup(s)%s)' % (len(cur), len(prv), '' if okw else '; the previous one is NOT reachable after the current one: HTLCs only present there are never re-failed after a restart'), len(cur) + len(prv), where=None if okw else F.where(cu.name)))
 	if not okg:
 		out.append(Result(rule, False, 'guard:restart-replay-waits-for-maturity', 'get_onchain_failed_outbound_htlcs: a funding spend still awaiting its confirmation threshold is reported as confirmed without the maturity test (%d site(s), %d open-coded test(s)) - after a restart HTLCs missing from a commitment with 1-5 confirmations are failed back upstream although a reorg can still put them on chain' % (nsite, n_oc), nsite, where=F.where(gfn)))
 	return out
